@@ -901,8 +901,8 @@ type e2eBatch struct {
 type e2eOut struct {
 	Readback []string `json:"readback"` // acknowledged writes to rb=… partitions that could not be read back completely
 	Answers  []string `json:"answers"`  // per request: ok | operr | transport-error | timeout
-	Alive   bool     `json:"alive"`
-	Note    string   `json:"note"`
+	Alive    bool     `json:"alive"`
+	Note     string   `json:"note"`
 }
 
 // safeForE2E: the request must not belong to a class that is known to kill the process (F13, F44): decided at unit level
@@ -992,7 +992,7 @@ func sectionE2E(rng *vh.Rng) {
 		// read-back family: writes to partitions rb=<n> (some with field blocks around and above 16384 bytes), then filters that
 		// name fields — including names that are spelled like stored VALUES — evaluated on those partitions
 		for k := 0; k < 6; k++ {
-			tags := fmt.Sprintf("rb=%dx%d", bi, k)
+			tags := fmt.Sprintf("rb=p%dq%d", bi, k)
 			var evs []e2eE
 			var aevs []*api.LogEvent
 			for j := rng.Range(1, 3); j > 0; j-- {
@@ -1015,6 +1015,10 @@ func sectionE2E(rng *vh.Rng) {
 					whereMode = true
 					w := genExpr(rng, 2)
 					whereMode = false
+					if j == 0 {
+						// names that are spelled like the values stored above (last and inner position)
+						w = rng.PickS([]string{"fields:level = \"x\"", "fields:y contains \"q\" or fields:level != \"\"", "not fields:level prefix \"a\""})
+					}
 					b.Reqs = append(b.Reqs, e2eReq{Kind: "query", Query: "select from " + tags + " where " + w + " limit 50", Lim: 50})
 				}
 			}
